@@ -122,7 +122,7 @@ def hashLoop : Nat → Nat → Option Pt
   | 0, _ => none
   | fuel + 1, x =>
     match modSqrt (x * x * x + B) with
-    | some y => some (.aff x y)
+    | some y => some (.aff (x % P) y)
     | none => hashLoop fuel (x + 1)
 
 /-- `hashToCurvePoint(m)` given `digest = SHA-256(m)`. -/
